@@ -30,5 +30,13 @@ Theorem C11_literal_flags : forall head ns, literal_negation_gen ns = Some (negb
 Proof. exact literal_flags_spec. Qed.
 Theorem C11_initially_marker : forall us1 us2, initially_gen us1 us2 = Some (us1 && negb us2).
 Proof. exact initially_spec. Qed.
+Require Import FutTransform FutTransformProofs.
+(* whole rules (the transformer model that is compared with transformers.transform on every run, Model/FutTransform.v): a rule - normal rule with or
+   without future head, disjunction, choice rule, constraint, rule whose head is a temporal formula; atoms with any primes, initially atoms, &initial,
+   &final, &tel / &del atoms in the body - is accepted exactly if every atom of it stands at a placement the table allows *)
+Theorem C11_rule_accepted_iff_every_placement_is_allowed : forall (A : Type) (r : frule A),
+  (exists t, transform_rule A r = Some t) <-> head_allowed A (fh A r) = true /\ forallb (lit_allowed A (shape_of A (fh A r))) (fb A r) = true.
+Proof. exact rule_accepted_iff_all_placements_allowed. Qed.
+Print Assumptions C11_rule_accepted_iff_every_placement_is_allowed.
 Print Assumptions C11_atoms. Print Assumptions C11_primes. Print Assumptions C11_rewrite.
 Print Assumptions C11_theory_context. Print Assumptions C11_literal_flags. Print Assumptions C11_initially_marker.
